@@ -38,7 +38,7 @@ IU = 'utils.iter_utils'
 
 
 def run(ctx: Ctx):
-  for r in (r1, r2, r3, r4, r6):
+  for r in (r1, r2, r3, r4, r6, r8):
     ctx.guard(r)
   from mlmverif.props import c02
   ctx.include('R-C10-7', 'a restored pipeline continues with the WHOLE checkpointed'
@@ -276,12 +276,9 @@ def r3(ctx: Ctx):
              ' iterator in order', node=st.node)
   cf = repo.func(TR, '_ChainedRunnerIterator.from_state')
   p = cf.params()[1]
-  ok = any(isinstance(c, ast.ListComp) and isinstance(c.elt, ast.Call)
-           and isinstance(c.elt.func, ast.Attribute) and c.elt.func.attr == 'from_state'
-           and unparse(c.elt.func.value) == unparse(c.generators[0].target)
-           and c.elt.args and unparse(c.elt.args[0]) == f'{p}[{unparse(c.generators[0].target)}.name]'
-           and unparse(c.generators[0].iter) == 'self._iterators'
-           for c in walk_no_nested(cf.node))
+  restores = [c for c in ast.walk(cf.node) if isinstance(c, ast.Call) and isinstance(c.func, ast.Attribute)
+              and c.func.attr == 'from_state' and isinstance(c.func.value, ast.Name)]
+  ok = bool(restores) and all(c.args and unparse(c.args[0]) == f'{p}[{c.func.value.id}.name]' for c in restores)
   cs = repo.func(TR, '_ChainedRunnerIterator.state')
   ok_s = any(isinstance(c, ast.DictComp) and unparse(c.key).endswith('.name')
              and unparse(c.value).endswith('.state')
@@ -424,12 +421,70 @@ def r6(ctx: Ctx):
   ctx.floor(rule, 2, n)
 
 
+def r8(ctx: Ctx):
+  rule = 'R-C10-8'
+  ctx.rule(rule, 'a restored chain is ONE chain: ChainedRunner.iterate links stage'
+           ' k to the iterator of stage k-1 through a loop-carried variable;'
+           ' _ChainedRunnerIterator.from_state must keep that linkage — the'
+           ' restored iterator it reports for stage k-1 is the very object'
+           ' stage k reads from (taken from the restored downstream iterator,'
+           ' or passed into the restore of stage k), never an independent'
+           ' second restore of every stage: the aggregate of a non-last stage'
+           ' would otherwise stop at the checkpoint while the data keeps'
+           ' flowing through another copy')
+  repo = ctx.repo
+  it_fn = repo.func(TR, 'ChainedRunner.iterate')
+  linked = False
+  for l in walk_no_nested(it_fn.node):
+    if isinstance(l, ast.For):
+      for x in ast.walk(l):
+        if isinstance(x, ast.Assign) and isinstance(x.targets[0], ast.Name) and isinstance(x.value, ast.Call) and (
+            isinstance(x.value.func, ast.Attribute) and x.value.func.attr == 'iterate') and x.value.args and (
+                isinstance(x.value.args[0], ast.Name) and x.value.args[0].id == x.targets[0].id):
+          linked = True
+  if not linked:
+    raise AnalysisError(f'{rule}: ChainedRunner.iterate no longer links the stages through a loop-carried iterator')
+  fs = repo.func(TR, '_ChainedRunnerIterator.from_state')
+  indep = []
+  for comp in ast.walk(fs.node):
+    if isinstance(comp, (ast.ListComp, ast.GeneratorExp, ast.For)):
+      it = comp.generators[0].iter if not isinstance(comp, ast.For) else comp.iter
+      tgt = comp.generators[0].target if not isinstance(comp, ast.For) else comp.target
+      if unparse(it) != 'self._iterators' or not isinstance(tgt, ast.Name):
+        continue
+      body = [comp.elt] if not isinstance(comp, ast.For) else comp.body
+      carried = {t.id for b in (comp.body if isinstance(comp, ast.For) else []) for x in ast.walk(b)
+                 if isinstance(x, ast.Assign) for t in x.targets if isinstance(t, ast.Name)}
+      for b in body:
+        for c in ast.walk(b):
+          if isinstance(c, ast.Call) and isinstance(c.func, ast.Attribute) and c.func.attr == 'from_state' and (
+              isinstance(c.func.value, ast.Name) and c.func.value.id == tgt.id):
+            names = {y.id for a in list(c.args) + [k.value for k in c.keywords] for y in ast.walk(a)
+                     if isinstance(y, ast.Name)}
+            if not (names & carried):
+              indep.append(c)
+  if indep:
+    ctx.fail(rule, fs, '_ChainedRunnerIterator.from_state: restored stages stay linked',
+             f'from_state restores every stage on its own (`{unparse(indep[0])[:50]}` for'
+             ' each iterator): restoring stage k also restores a private copy of'
+             ' stage k-1 as its input, so the iterator reported for stage k-1 is'
+             ' never advanced — after a restore the aggregate of a non-last'
+             ' stage only covers the batches seen before the checkpoint',
+             node=indep[0])
+  else:
+    ctx.ok(rule, fs, 'restored stage iterators are the linked ones', fs.node)
+  ctx.floor(rule, 1)
+
+
 from mlmverif.selfcheck import B, OK  # noqa: E402
 
 _F = 'chainables/io.py'
 _T = 'chainables/transform.py'
 _U = 'utils/iter_utils.py'
 VARIANTS = [
+    B('revert-linked-chain-restore', _T,
+      '    last = self._iterators[-1]\n    iterators = [last.from_state(state[last.name])]\n    while len(iterators) < len(self._iterators):\n      (upstream,) = iterators[0].data_sources\n      iterators.insert(0, upstream)',
+      '    iterators = [it.from_state(state[it.name]) for it in self._iterators]', 'R-C10-8'),
     B('restore-drops-sliced-states', _T,
       '        k: v for k, v in state.items() if k.metrics in self._runner.agg_fns\n',
       '        k: v for k, v in state.items() if k in {MetricKey(key) for key in self._runner.agg_fns}\n', 'R-C10-7'),
@@ -467,8 +522,8 @@ VARIANTS = [
       'zip(self._data_sources, states, strict=True)', 'zip(self._data_sources, states)',
       'R-C10-3'),
     B('chained-restore-first-state', _T,
-      '    iterators = [it.from_state(state[it.name]) for it in self._iterators]',
-      '    iterators = [it.from_state(state[self._iterators[0].name]) for it in self._iterators]',
+      '    iterators = [last.from_state(state[last.name])]',
+      '    iterators = [last.from_state(state[self._iterators[0].name])]',
       'R-C10-3'),
     OK('state-reordered', _F,
        '    start_index = self._index - self.config.start + self.config.state.start_index',
